@@ -190,7 +190,7 @@ def accepted(B, src_entry, img):
 def run_prior(path, cat, c, rms):
     sf = SourceFinder()
     return sf.priorized_fit_islands(path, catalogue=[copy.deepcopy(s) for s in cat], rms=rms, bkg=0.0, stage=c["stage"],
-                                    ratio=c["ratio"], doregroup=c["regroup"], docov=c["docov"], cores=1)
+                                    ratio=c["ratio"], doregroup=c["regroup"], docov=c["docov"], cores=1, **skyimg.cube_kw(c.get("rep")))
 
 
 def width_parity(src, B):
@@ -332,13 +332,13 @@ def check_case(c):
             slim = os.path.join(d, "input_slim.csv")
             t_.write(slim)
             slim_out = SourceFinder().priorized_fit_islands(path, catalogue=slim, rms=rms, bkg=0.0, stage=c["stage"],
-                                                            ratio=None, doregroup=c["regroup"], docov=c["docov"], cores=1)
+                                                            ratio=None, doregroup=c["regroup"], docov=c["docov"], cores=1, **skyimg.cube_kw(c.get("rep")))
             if any(o_.uuid not in by_uuid for o_ in slim_out) or (nfit and not slim_out):
                 res.bad("slim-catalogue", "%s: a catalogue file without psf/err columns returned %d rows (%d expected)" % (
                     what, len(slim_out), nfit), **tags)
             # ... and must not change what the complete file gives afterwards
             api = SourceFinder().priorized_fit_islands(path, catalogue=catfile, rms=rms, bkg=0.0, stage=c["stage"],
-                                                       ratio=c["ratio"], doregroup=c["regroup"], docov=c["docov"], cores=1)
+                                                       ratio=c["ratio"], doregroup=c["regroup"], docov=c["docov"], cores=1, **skyimg.cube_kw(c.get("rep")))
             ro, ra_ = rows_of(out), rows_of(api)
             if set(ro) != set(ra_) or any(not all((x == y) or (isinstance(x, float) and abs(x - y) <= 1e-9 * max(abs(x), 1e-30))
                                                   for x, y in zip(ro[u], ra_[u])) for u in ro):
